@@ -189,19 +189,36 @@ Theorem C11_cc_F4_refuted :
 Proof. exact cc_F4_refuted. Qed.
 Print Assumptions C11_cc_F4_refuted.
 
-(** jwt finalizer: for every history of executions and key-store reloads in
-    which no reload puts a new key under a key id used before (guard of C11-F5),
+(** jwt finalizer: for every history of executions and key-store reloads,
     every token served with the cache is one a fresh evaluation would issue at
-    that moment: same subject, claims, issuer, key id and signing key *)
-Theorem C11_jf_cache_transparent : forall H kc s h,
-  (forall x y, H x = H y -> x = y) -> g_F5 kc s h = false ->
-  (forall x y, In x (timeline kc s h) -> In y (timeline kc s h) -> p_jf_F4 H x y = false /\ jf_faithful x y) ->
-  map (fun m => sr_out (fst m)) (jrun H kc s [] h) = map snd (jrun H kc s [] h).
+    that moment (same subject, claims, issuer, key id and signing key), provided
+    the signer's hash covers the key itself ([fx5]: the code since d9caf75) or no
+    reload puts a new key under a key id used before (guard of C11-F5) *)
+Theorem C11_jf_cache_transparent : forall fx5 H kc s h,
+  (forall x y, H x = H y -> x = y) ->
+  (fx5 = true /\ thumbs_faithful (timeline kc s h)) \/ g_F5 kc s h = false ->
+  (forall x y, In x (timeline kc s h) -> In y (timeline kc s h) -> p_jf_F4 fx5 H x y = false /\ jf_faithful x y) ->
+  map (fun m => sr_out (fst m)) (jrun fx5 H kc s [] h) = map snd (jrun fx5 H kc s [] h).
 Proof. exact jf_cache_transparent. Qed.
 Print Assumptions C11_jf_cache_transparent.
 
 Theorem C11_F5_refuted :
   exists kc s h, g_F5 kc s h = true /\
-    forall H, map (fun m => sr_out (fst m)) (jrun H kc s [] h) <> map snd (jrun H kc s [] h).
+    forall H, map (fun m => sr_out (fst m)) (jrun false H kc s [] h) <> map snd (jrun false H kc s [] h).
 Proof. exact F5_refuted. Qed.
 Print Assumptions C11_F5_refuted.
+
+(** RFC 7234 cache of an endpoint: outside the guard of C11-F8 (requests that
+    differ in a header the server lists in Vary) every response served from the
+    cache is the one a fresh request would get *)
+Theorem C11_hc_cache_transparent : forall fx8 H c h,
+  g_F8 fx8 c h = false ->
+  map sr_out (hc_run fx8 H c [] h) = map (fun x => OAllow (hc_result c x)) h.
+Proof. exact hc_cache_transparent. Qed.
+Print Assumptions C11_hc_cache_transparent.
+
+Theorem C11_F8_refuted :
+  exists c a b, g_F8 false c [a; b] = true /\
+    forall H, map sr_out (hc_run false H c [] [a; b]) <> map (fun x => OAllow (hc_result c x)) [a; b].
+Proof. exact F8_refuted. Qed.
+Print Assumptions C11_F8_refuted.
